@@ -11,11 +11,18 @@ from fractions import Fraction
 
 from ..core import EventLog, RunResult, SimAbort, h64
 from ..render import render, random_layout, PLAIN
-from ..seams import ExecMonitor, Hygiene, exc_chain, run_in_thread
+from ..seams import ExecMonitor, Hygiene, exc_chain, run_in_thread, run_concurrently
 
 ENGINE = "evalsim"
 SLOTS = ("A", "B", "L", "N", "NN")
 LIBS = ("mpsim_probe",)
+
+# Two client threads on one program (seams.run_concurrently) are beyond the quantifier of C14 (it ranges over programs, one
+# client): mpilot promises no thread safety and C01 does not hold under it even on the unchanged tree.  The flavour exists
+# for exploration (MPSIM_CONCURRENT=1) and is off in every registered command, so that a change which only alters
+# behaviour under concurrent use can never raise an alarm.
+import os as _os
+CONCURRENT_CLIENTS = _os.environ.get("MPSIM_CONCURRENT") == "1"
 
 BUDGET = {
     "C01": {"quick": 24000, "thorough": 1200000},
@@ -680,6 +687,16 @@ def _generate_cyclic(rng, index, tier):
         if early and late:
             sc["late"] = [nd["name"] for nd in sc["nodes"] if nd["name"] in late]
             sc["ops"] = [["RUN"]]
+    elif CONCURRENT_CLIENTS and rng.random() < 0.2:
+        # two clients on the same program at once (a second thread reads a result of the cycle, or runs the program too);
+        # the scenario says after how many lines of the code under test the other client continues
+        deps = deps_of(sc)
+        on_cycle = [x for x in deps if any(x in closure(deps, d) for d in deps[x])]
+        if on_cycle:
+            sc["concurrent"] = {"op2": ["RUN"] if rng.random() < 0.4 else ["GET", rng.choice(sorted(on_cycle))],
+                                "switch": sorted(rng.sample(range(1, 260), rng.randint(1, 5)))}
+            sc["ops"] = [["RUN"]]
+            sc["knobs"]["thread"] = False
     return sc
 
 
@@ -1145,7 +1162,27 @@ def execute(sc):
                 total_enters[0] = 0
             complete = False
             gets = {}
-            for op in sc["ops"]:
+            conc = sc.get("concurrent") if cyclic else None
+            if conc and (len(conc["op2"]) == 1 or conc["op2"][1] in pos):
+                import os
+                import mpilot as _pkg
+                scratch = os.path.dirname(os.path.dirname(os.path.abspath(_pkg.__file__)))
+                roots = (os.path.join(scratch, "mpilot") + os.sep, os.path.join(scratch, "mpsim_probe.py"))
+                depth_cap *= 2
+                enter_cap *= 2
+                op2 = conc["op2"]
+                fns = [program.run, program.run if op2[0] == "RUN" else (lambda: ctx.cmd_of(op2[1]).result)]
+                log.emit("op-begin", op="CONCURRENT", ops=[["RUN"], op2], switch=conc["switch"])
+                outs = run_concurrently(fns, conc["switch"], roots, sc.get("knobs", {}).get("reclimit") or 1000, log)
+                res.probe("two clients on one cyclic program at the same time")
+                if log.count("switch"):
+                    res.probe("control moved between the two clients inside the code under test")
+                for who, (kind, val) in enumerate(outs):
+                    if kind == "raise" and isinstance(val, SimAbort):
+                        break
+                    _judge_cyclic(sc, res, mon, "ok" if kind == "ok" else "raise", None if kind == "ok" else val,
+                                  RecursiveModelStructure)
+            for op in ([] if conc and (len(conc["op2"]) == 1 or conc["op2"][1] in pos) else sc["ops"]):
                 before = total_enters[0]
                 op_entered.clear()
                 log.emit("op-begin", op=op)
